@@ -4,6 +4,8 @@
 //   pat type msg cat file fn line nattr (key tval)* ntf (timefmt)*
 //   tval = s<hex> (QString) | i<decimal> (int / qlonglong) | b0 | b1 (bool)
 // Output line:  <formatted> <threadId decimal> <qthreadptr decimal> <%{func} rendering> (<rendering of each timefmt>)*
+// Before every case a fixed "poison" pattern ending in a missing optional attribute (?0,3) is formatted on
+// the same thread, so that state leaking from one format() call into the next shows up in every case.
 // The last three groups are the environment the model takes as given (thread id, function-name
 // cleanup = C14, QDateTime::toString / process- and boot-relative seconds).
 #ifdef VERIF_HEADER_ONLY
@@ -60,6 +62,12 @@ int main()
         for (int i = 0; i < ntf; i++) { std::string t; is >> t; tfs.push_back(unhex(t)); }
         std::ostringstream o;
         try {
+            // history independence: a previous format() call on this thread that ends with a missing
+            // optional attribute asking for "3 after" must not influence the case under test
+            {
+                LogMessage pm(QtDebugMsg, QMessageLogContext(), QStringLiteral("poison"));
+                (void)PatternFormatter(QStringLiteral("p%{verif_poison_attr?0,3}")).format(pm);
+            }
             PatternFormatter pf(unhex(pat));
             o << hex(pf.format(m)) << ' ' << m.threadId() << ' ' << qulonglong(m.qthreadptr()) << ' '
               << hex(PatternFormatter(QStringLiteral("%{func}")).format(m));
